@@ -1,4 +1,5 @@
 import Axelar.Model.Chain
+import Axelar.Proofs.GatewayProofs
 namespace Axelar.ItsW
 open Axelar Codec Its
 
@@ -195,5 +196,171 @@ theorem subcall_keeps_its (C : Crypto) (cx : ICtx) (dst : Bytes) (f : String) (e
       obtain ⟨_, rfl⟩ := h
       simp only
       rw [World.callOther_keeps_its C w1 cx.self dst f e es args w2 rs2 evs pd hc, World.pay_its _ _ _ _ _ _ hp]
+
+end Axelar.ItsW
+
+namespace Axelar.ItsW
+open Axelar Codec
+
+theorem deployedTokenManager_run (tid : Bytes) (t : Tx) :
+    deployedTokenManager tid t =
+      if (t.w.its.tmAddress tid).isEmpty then none else some (t.w.its.tmAddress tid, t) := by
+  simp only [deployedTokenManager, run_bind, run_getI, run_require]
+  cases (t.w.its.tmAddress tid).isEmpty <;> simp
+
+theorem gatewayIsApproved_keeps_its (C : Crypto) (cx : ICtx) (a b c d : Bytes) (t t1 : Tx) (r : Bool)
+    (h : gatewayIsApproved C cx a b c d t = some (r, t1)) : t1.w.its = t.w.its := by
+  simp only [gatewayIsApproved, run_bind, run_getI] at h
+  cases hs : subcall C cx t.w.its.gateway "isMessageApproved" 0 [] [a, b, c, cx.self, d] t with
+  | none => simp [hs] at h
+  | some x =>
+    obtain ⟨rs, tt⟩ := x
+    simp only [hs, run_pure, Option.some.injEq, Prod.mk.injEq] at h
+    obtain ⟨_, rfl⟩ := h
+    exact subcall_keeps_its _ _ _ _ _ _ _ _ _ _ hs
+
+theorem gatewayValidate_keeps_its (C : Crypto) (cx : ICtx) (a b c d : Bytes) (t t1 : Tx) (r : Bool)
+    (h : gatewayValidate C cx a b c d t = some (r, t1)) : t1.w.its = t.w.its := by
+  simp only [gatewayValidate, run_bind, run_getI] at h
+  cases hs : subcall C cx t.w.its.gateway "validateMessage" 0 [] [a, b, c, d] t with
+  | none => simp [hs] at h
+  | some x =>
+    obtain ⟨rs, tt⟩ := x
+    simp only [hs, run_pure, Option.some.injEq, Prod.mk.injEq] at h
+    obtain ⟨_, rfl⟩ := h
+    exact subcall_keeps_its _ _ _ _ _ _ _ _ _ _ hs
+
+theorem tmGiveToken_keeps_its (C : Crypto) (cx : ICtx) (tid dest : Bytes) (amount : Nat) (t t1 : Tx)
+    (r : Bytes × Nat) (h : tmGiveToken C cx tid dest amount t = some (r, t1)) : t1.w.its = t.w.its := by
+  simp only [tmGiveToken, run_bind, deployedTokenManager_run] at h
+  by_cases he : (t.w.its.tmAddress tid).isEmpty = true
+  · simp [he] at h
+  · simp only [he, Bool.false_eq_true, if_false] at h
+    cases hs : subcall C cx (t.w.its.tmAddress tid) "giveToken" 0 [] [dest, encNat amount] t with
+    | none => simp [hs] at h
+    | some x =>
+      obtain ⟨rs, tt⟩ := x
+      simp only [hs] at h
+      have hk := subcall_keeps_its _ _ _ _ _ _ _ _ _ _ hs
+      split at h
+      · simp only [run_pure, Option.some.injEq, Prod.mk.injEq] at h
+        obtain ⟨_, rfl⟩ := h
+        exact hk
+      · simp at h
+
+theorem tmTakeToken_keeps_its (C : Crypto) (cx : ICtx) (tid : Bytes) (tok : Its.Tok) (amount : Nat) (t t1 : Tx)
+    (h : tmTakeToken C cx tid tok amount t = some ((), t1)) : t1.w.its = t.w.its := by
+  simp only [tmTakeToken, run_bind, deployedTokenManager_run] at h
+  by_cases he : (t.w.its.tmAddress tid).isEmpty = true
+  · simp [he] at h
+  · simp only [he, Bool.false_eq_true, if_false] at h
+    cases hs : subcall C cx (t.w.its.tmAddress tid) "takeToken" (payOf tok amount).1 (payOf tok amount).2 [] t with
+    | none => simp [hs] at h
+    | some x =>
+      obtain ⟨rs, tt⟩ := x
+      simp only [hs, run_pure, Option.some.injEq, Prod.mk.injEq] at h
+      obtain ⟨_, rfl⟩ := h
+      exact subcall_keeps_its _ _ _ _ _ _ _ _ _ _ hs
+
+end Axelar.ItsW
+
+namespace Axelar.World
+open Axelar
+
+theorem subEgld_gw (w w' : World) (a : Bytes) (n : Nat) (h : subEgld w a n = some w') :
+    w'.gw = w.gw ∧ w'.kind = w.kind ∧ w'.owner = w.owner ∧ w'.now = w.now := by
+  simp only [subEgld] at h
+  split at h
+  · cases h; exact ⟨rfl, rfl, rfl, rfl⟩
+  · cases h
+
+theorem subEsdt_gw (w w' : World) (a t : Bytes) (n : Nat) (h : subEsdt w a t n = some w') :
+    w'.gw = w.gw ∧ w'.kind = w.kind ∧ w'.owner = w.owner ∧ w'.now = w.now := by
+  simp only [subEsdt] at h
+  split at h
+  · cases h; exact ⟨rfl, rfl, rfl, rfl⟩
+  · cases h
+
+theorem pay_gw (src dst : Bytes) (e : Nat) (l : List (Bytes × Nat × Nat)) (w w' : World)
+    (h : pay w src dst e l = some w') :
+    w'.gw = w.gw ∧ w'.kind = w.kind ∧ w'.owner = w.owner ∧ w'.now = w.now := by
+  induction l generalizing w with
+  | nil =>
+    simp only [pay] at h
+    split at h
+    · rename_i w1 hs
+      cases h
+      have := subEgld_gw _ _ _ _ hs
+      exact this
+    · cases h
+  | cons x l ih =>
+    obtain ⟨tok, n, amt⟩ := x
+    simp only [pay] at h
+    split at h
+    · rename_i w1 hs
+      obtain ⟨a, b, c, d⟩ := ih _ h
+      obtain ⟨a', b', c', d'⟩ := subEsdt_gw _ _ _ _ _ hs
+      exact ⟨a.trans a', b.trans b', c.trans c', d.trans d'⟩
+    · cases h
+
+end Axelar.World
+
+namespace Axelar.ItsW
+open Axelar Codec
+
+/-- **A validation that returned true found the approval addressed to the service and consumed
+    it**: the gateway entry was `Approved(hash(chain, id, source, THIS contract, payload hash))`
+    and is `Executed` afterwards. -/
+theorem gatewayValidate_true (C : Crypto) (cx : ICtx) (chain id src ph : Bytes) (t t1 : Tx)
+    (hk : t.w.kind t.w.its.gateway = some .gateway)
+    (h : gatewayValidate C cx chain id src ph t = some (true, t1)) :
+    t.w.gw.messages (chain, id) = .approved (Gateway.messageHash C chain id src cx.self ph) ∧
+    t1.w.gw.messages (chain, id) = .executed := by
+  simp only [gatewayValidate, run_bind, run_getI] at h
+  cases hs : subcall C cx t.w.its.gateway "validateMessage" 0 [] [chain, id, src, ph] t with
+  | none => simp [hs] at h
+  | some x =>
+    obtain ⟨rs, tt⟩ := x
+    simp only [hs, run_pure, Option.some.injEq, Prod.mk.injEq] at h
+    obtain ⟨hrs, rfl⟩ := h
+    have hrs' : rs = [encBool true] := by simpa using hrs
+    unfold subcall at hs
+    cases hp : World.pay t.w cx.self t.w.its.gateway 0 [] with
+    | none => simp [hp] at hs
+    | some w1 =>
+      simp only [hp] at hs
+      obtain ⟨g1, g2, g3, g4⟩ := World.pay_gw _ _ _ _ _ _ hp
+      cases hc : World.callOther C w1 cx.self t.w.its.gateway "validateMessage" 0 [] [chain, id, src, ph] with
+      | none => simp [hc] at hs
+      | some r =>
+        obtain ⟨w2, rs2, evs, pd⟩ := r
+        simp only [hc, Option.some.injEq, Prod.mk.injEq] at hs
+        obtain ⟨rfl, rfl⟩ := hs
+        unfold World.callOther at hc
+        rw [g2, hk] at hc
+        simp only [ne_eq, not_true_eq_false, decide_false, List.isEmpty_nil, Bool.not_true, Bool.or_self,
+          Bool.false_eq_true, if_false] at hc
+        cases hg : Gateway.call C w1.gw ⟨cx.self, w1.owner t.w.its.gateway, w1.now⟩ "validateMessage" [chain, id, src, ph] with
+        | error e => simp [hg] at hc
+        | ok v =>
+          obtain ⟨gw', rs3, evs3⟩ := v
+          simp only [hg, Option.some.injEq, Prod.mk.injEq] at hc
+          obtain ⟨rfl, rfl, _, _⟩ := hc
+          obtain ⟨c', i', s', p', hargs, _, hv, hres⟩ := Gateway.validate_call_inv C w1.gw gw' _ _ _ evs3 hg
+          simp only [List.cons.injEq, and_true] at hargs
+          obtain ⟨rfl, rfl, rfl, rfl⟩ := hargs
+          have htrue : (Gateway.validateMessage C w1.gw cx.self chain id src ph).2.1 = true := by
+            rw [hrs'] at hres
+            simp only [List.cons.injEq, and_true] at hres
+            cases hb : (Gateway.validateMessage C w1.gw cx.self chain id src ph).2.1
+            · rw [hb] at hres; simp [encBool] at hres
+            · rfl
+          have hspec := Gateway.validateMessage_spec C w1.gw cx.self chain id src ph
+          simp only at hspec
+          refine ⟨by rw [← g1]; exact hspec.1.mp htrue, ?_⟩
+          have h1 := hspec.2.1 htrue
+          rw [hv] at h1
+          simp only at h1 ⊢
+          rw [h1]; simp [upd]
 
 end Axelar.ItsW
